@@ -72,6 +72,7 @@ def all_cases(tier):
             add("avg_pool2d=mean(windows)", [(Nb, Ci, H, W)], A)
     for names in itertools.chain.from_iterable(itertools.product(("linear", "tanh", "double", "relu"), repeat=r) for r in (1, 2, 3)):
         add("Sequential=composition", [(2, 2)], {"layers": list(names)})
+        if len(names) >= 2: add("Sequential=composition", [(2, 2)], {"layers": list(names), "share_first_last": True})
     return out
 
 def sides(case, ts, sg):
@@ -139,6 +140,7 @@ def sides(case, ts, sg):
                 class Dbl(nn.Module):
                     def forward(self, x): return x * 2.0
                 mods.append(Dbl())
+        if A.get("share_first_last"): mods[-1] = mods[0]      # one module instance used in two positions (shared activation / tied weights)
         y = ts[0]
         for m in mods: y = m(y)
         return nn.Sequential(*mods)(ts[0]), y
